@@ -61,13 +61,13 @@ type Event struct {
 }
 
 type Outcome struct {
-	Events   []Event
-	Results  []string
-	Failed   bool
-	ErrTok   string // serialised error value
-	ErrKind  string // "" | "syntax" | "run" | "panic" | "budget" | "other"
-	ErrText  string
-	Steps    int64
+	Events  []Event
+	Results []string
+	Failed  bool
+	ErrTok  string // serialised error value
+	ErrKind string // "" | "syntax" | "run" | "panic" | "budget" | "other"
+	ErrText string
+	Steps   int64
 }
 
 type Impl struct {
@@ -494,6 +494,13 @@ func matchTok(m MTok, got string) bool {
 	if m.Op == nil {
 		return m.S == got
 	}
+	if m.Op.Kind == "linenum" {
+		if !strings.HasPrefix(got, "n:") {
+			return false
+		}
+		n, err := strconv.Atoi(got[2:])
+		return err == nil && n >= m.Op.Lo && n <= m.Op.Hi
+	}
 	if !strings.HasPrefix(got, "s:") {
 		return false
 	}
@@ -531,6 +538,8 @@ func (t MTok) String() string {
 		return fmt.Sprintf("<%q prefixed with position line %d..%d>", t.Op.Rest, t.Op.Lo, t.Op.Hi)
 	case "endswith":
 		return fmt.Sprintf("<string ending with %q>", t.Op.Rest)
+	case "linenum":
+		return fmt.Sprintf("<line number in %d..%d>", t.Op.Lo, t.Op.Hi)
 	}
 	return "<some string>"
 }
